@@ -5156,7 +5156,8 @@ class Entity(object, metaclass=EntityMeta):
                     new_wbits = wbits
                     for attr in avdict: new_wbits |= obj._bits_[attr]
                     obj._wbits_ = new_wbits
-                    if status != 'modified':
+                    if status != 'modified' and any(obj._bits_[attr] for attr in avdict):
+                        # (as in Attribute.__set__: attributes without columns do not make the object modified)
                         assert status in ('loaded', 'inserted', 'updated')
                         assert obj._save_pos_ is None
                         obj._status_ = 'modified'
